@@ -72,6 +72,8 @@ def run_readn(res, work, tier, seed):
     # the second hard error of the scripts (-3) is a different std::io::ErrorKind from run to run: only Interrupted is retried
     kinds = ["BrokenPipe", "WouldBlock", "TimedOut", "UnexpectedEof", "WriteZero", "InvalidData", "ConnectionReset"]
     for r in runs:
+        if r["cfg"]["entry"] in ("encode_read", "enc_read_n") and r["run"] % 2 == 0:
+            r["cfg"]["around"] = "fe"
         r["cfg"]["hard_b"] = kinds[r["run"] % len(kinds)] if -3 in r["cfg"]["script"] else rng.choice(kinds)
     trace = core.drive("readn", runs, work, "readn")
     tv = tlc.validate_trace("ReadNTrace", "ReadNTrace.cfg", trace, os.path.join(work, "tv"), timeout=3000)
